@@ -526,6 +526,10 @@ def __CheckMat(mat: FeArray.FeArrayALike) -> None:
     assert (
         isinstance(mat, np.ndarray) and mat.ndim >= 2 and mat.shape[-2] == mat.shape[-1]
     ), "must be a (..., dim, dim) array"
+    # the (Ne, nPg) axes of a scalar or vector field are not matrix axes, even when they have the same size
+    assert not (
+        isinstance(mat, FeArray) and mat._ndim < 2
+    ), "must be a field of matrices (Ne, nPg, dim, dim)"
     dim = mat.shape[-1]
     assert dim > 0
 
